@@ -683,6 +683,17 @@ func c15Generate(ctx *Ctx, g *graph, label string) error {
 	o.Generate.Models = true
 	o.Generate.EmbeddedSpec = true
 	o.OutputOptions.ExcludeOperationIDs = []string{"ZzExtra"}
+	if len(g.Nodes)%3 == 1 {
+		// exclude-schemas leaves Go types out; the document that is pruned and embedded is not its business: a schema
+		// named there still counts with everything it refers to
+		for _, e := range g.Edges {
+			if e.From >= 0 && g.Nodes[e.From].Kind == "schemas" {
+				o.OutputOptions.ExcludeSchemas = append(o.OutputOptions.ExcludeSchemas, g.Nodes[e.From].Name)
+				ctx.Res.Count("generate-level:exclude-schemas-names-a-referring-schema")
+				break
+			}
+		}
+	}
 	if dump := os.Getenv("C15_DUMP"); dump != "" {
 		os.WriteFile(dump, []byte(Canon(doc)), 0o644)
 	}
